@@ -415,7 +415,7 @@ def run(tier, replay=None):
         ("reader/swallow-undeclared(D7)", consts(swallow="{3}", declared="FALSE"), False, False),
         ("writer/filter-advances(D9)", consts("writer", adv="TRUE"), False, False),
     ]
-    with ThreadPoolExecutor(max_workers=4) as ex:
+    with ThreadPoolExecutor(max_workers=7) as ex:
         futs = [ex.submit(tlc_design, ctx, n, c, exp) for (n, c, ok, exp) in plan]
         res = [f.result() for f in futs]
     rscripts, wscripts, cex = [], [], {}
@@ -576,7 +576,7 @@ def run(tier, replay=None):
     ctx.cov["writer_runs"] = len(wjobs)
 
     # ---------------- stage 3: TLC validates recorded I/O logs (a sample per reader / writer x fault class)
-    want = 14 if quick else 60
+    want = 10 if quick else 60
     pick = collections.defaultdict(list)
     for i, (j, (s, src), r) in enumerate(zip(jobs, meta, results)):
         if i in viol_runs or r["o"] not in ("ok", "err"):
@@ -614,7 +614,7 @@ def run(tier, replay=None):
     # keep the TLC input bounded
     tot, kept = 0, []
     for (i, ev) in ev_runs:
-        if tot + len(ev) > (60_000 if quick else 400_000):
+        if tot + len(ev) > (30_000 if quick else 400_000):
             continue
         tot += len(ev)
         kept.append((i, ev))
